@@ -217,6 +217,16 @@ class C12(Check):
             m.get_terminal_name_version = u.get_terminal_name_version
             if hasattr(m, "query_terminal"):
                 m.query_terminal = u.query_terminal
+        if bool(eng.bool("asked_before_while_queries_were_disabled")):
+            # an earlier phase with queries disabled: the defaults obtained then must not outlive re-enabling
+            import term_image as ti
+
+            ti.disable_queries()
+            try:
+                u.get_terminal_name_version()
+                u.get_fg_bg_colors()
+            finally:
+                ti.enable_queries()
         try:
             got = u.get_terminal_name_version()
             ks = self.KittyImage.is_supported()
